@@ -115,7 +115,7 @@ CHECKS = {
         "direction); the t_eval loop is a sequence of integrate(t) calls in the direction of integration, so the C03 call-sequence theorem "
         "gives the returned times. Tied to the code by comparing seeded solve_ivp calls (names/aliases/classes, forward/backward, t_eval "
         "variants, shapes, args, step limits, dense, events) bit for bit with driving the object API by hand; shapes, first column, t_eval "
-        "times, max_step and scipy agreement (tolerance level) are evaluated on the results.",
+        "times, max_step and scipy agreement (tolerance level) are evaluated on the results. With t_eval the per-time loop is part of the whole-run model (DV.Run.tevalLoop): it leaves exactly the system the same integrate(t) calls leave (t_eval_loop_is_the_object_api), returns one column per requested time and every column is a recorded sample (t, y) of that system (t_eval_columns_are_recorded_samples); solve_ivp(t_eval=...) with fixed-step methods is compared with the model (times exactly, columns against the exact states).",
    note="Trusted: Lean kernel, standard axioms, harness. The by-hand driver in the harness restates what the facade is documented to do; "
         "agreement with scipy is a measurement.",
    technique="Lean 4 proof (glue lemmas + loop invariant for bounded requests) + bit-exact differential testing against the object API",
